@@ -465,7 +465,7 @@ def gen(ctx):
         if kind == 'batch' and args.get('nonjson') is None and not args['notif_at'] and args.get('prior', 'none') == 'none':
             k += 1
             if full or k % 2 == 0:
-                yield 'match', dict(n=args['n'], doc=args['doc'], strict=args['strict'], op=args['op'] if args.get('ids') != 'str' else 'send',
+                yield 'match', dict(n=args['n'], doc=args['doc'], strict=args['strict'], op=args['op'] if args.get('ids') not in ('str', 'mixed') else 'send',
                                     ids=args.get('ids', 'one'))
 
 
